@@ -445,6 +445,90 @@ Section RosInvariants.
     end.
     constructor.
   Qed.
+
+  (* ---------------- C10: a NaN or infinite error norm never yields Converged ---------------- *)
+  Definition finite_attempt (e : event) : Prop :=
+    match e with EvAttempt _ err _ _ _ _ => isnan err = false /\ isinf err = false | _ => True end.
+
+  Lemma stages_finite H s s' ev nf : stages H s = (s', ev, nf) -> Forall finite_attempt ev.
+  Proof.
+    intros E. pose proof (stages_no_attempt _ _ _ _ _ E) as Hna.
+    apply Forall_forall. intros e He. rewrite Forall_forall in Hna.
+    specialize (Hna e He). destruct e; cbn; auto.
+    (* an EvAttempt cannot be in ev: stages produce none *)
+    exfalso. clear Hna. revert He. unfold stages_loop in E.
+    assert (G : forall l (acc : rstate * list event * nat) s' ev nf,
+               fold_left (fun (acc : rstate * list event * nat) stage =>
+                  let '(s, ev, nf) := acc in
+                  let '(s', ev', nf') := stage1 H s (sJac s) (sLU s) stage in
+                  (s', ev ++ ev', nf + nf')) l acc = (s', ev, nf) ->
+               (forall e, In e (snd (fst acc)) -> isA e = false) -> forall e, In e ev -> isA e = false).
+    { induction l as [|k l IH]; intros [[s0 ev0] nf0] s1 ev1 nf1 E0 Hacc; cbn [fold_left] in E0.
+      - inversion E0; subst. exact Hacc.
+      - destruct (stage1 H s0 (sJac s0) (sLU s0) k) as [[s2 ev2] nf2] eqn:E2.
+        apply (IH _ _ _ _ E0). cbn [fst snd] in *. intros e0 He0. rewrite in_app_iff in He0.
+        destruct He0 as [He0|He0]; [apply Hacc; assumption|].
+        unfold stage_step in E2.
+        destruct (k =? 0); [|destruct (nth k (p_newf p) false)]; inversion E2; subst; cbn in He0;
+          repeat (destruct He0 as [<-|He0]; [reflexivity|]); contradiction. }
+    intros He. specialize (G _ _ _ _ _ E (fun _ F => match F with end) _ He). cbn in G. discriminate.
+  Qed.
+
+  Lemma iter_finite time_step h_max l tr :
+    Forall finite_attempt tr ->
+    match iter time_step h_max l with
+    | inr (l', ev) => Forall finite_attempt (tr ++ ev)
+    | inl (st, t, sts, s, ev) => st = Converged -> Forall finite_attempt (tr ++ ev)
+    end.
+  Proof.
+    intros HI.
+    destruct (iter time_step h_max l) as [[[[[st t] sts] s] ev]|[l' ev]] eqn:E; unfold ros_iter in E;
+      (destruct (l_fresh l);
+       [ destruct (negb (leb _ _)); [try discriminate; inversion E; subst; rewrite app_nil_r; intros; exact HI|];
+         destruct (_ <? _); [try discriminate; inversion E; subst; discriminate|];
+         destruct (absorbed _ _ || leb _ _); [try discriminate; inversion E; subst; discriminate|] | ]);
+      reduce_iter E;
+      match type of E with context [stages ?H ?s1] => destruct (stages H s1) as [[s2 evs] nf] eqn:Est end;
+      pose proof (stages_finite _ _ _ _ _ Est) as Hna;
+      reduce_iter E;
+      match type of E with context [isnan ?e] => destruct (isnan e) eqn:Enan end;
+      try match type of E with context [isinf ?e] => destruct (isinf e) eqn:Einf end;
+      split_ifs E; inversion E; subst; clear E; try discriminate;
+      repeat first [ exact HI | exact Hna | apply Forall_nil | apply Forall_cons | (apply Forall_app; split) ];
+      cbn [finite_attempt]; auto.
+  Qed.
+
+  Lemma iter_never_running time_step h_max l st t sts s ev :
+    iter time_step h_max l = inl (st, t, sts, s, ev) -> st <> Running /\ st <> OutOfFuel.
+  Proof.
+    intros E. unfold ros_iter in E.
+    destruct (l_fresh l);
+      [ destruct (negb (leb _ _)); [inversion E; subst; split; discriminate|];
+        destruct (_ <? _); [inversion E; subst; split; discriminate|];
+        destruct (absorbed _ _ || leb _ _); [inversion E; subst; split; discriminate|] | ];
+      reduce_iter E;
+      match type of E with context [stages ?H ?s1] => destruct (stages H s1) as [[s2 evs] nf] eqn:Est end;
+      reduce_iter E; split_ifs E; inversion E; subst; split; discriminate.
+  Qed.
+
+  Theorem ros_converged_errors_finite fuel time_step s :
+    r_state (solve fuel time_step s) = Converged -> Forall finite_attempt (r_trace (solve fuel time_step s)).
+  Proof.
+    unfold ros_solve. cbv zeta. cbn [r_state r_trace].
+    match goal with |- context [loop fuel time_step ?hm ?l0 []] =>
+      pose proof (loop_invariant time_step hm (fun _ tr => Forall finite_attempt tr)
+                    (fun st _ _ _ tr => st <> Running /\ (st = Converged -> Forall finite_attempt tr))) as LI;
+      specialize (LI (fun l tr l' ev HI E => ltac:(pose proof (iter_finite time_step hm l tr HI) as X; rewrite E in X; exact X)));
+      specialize (LI (fun l tr st t sts s0 ev HI E =>
+                        ltac:(pose proof (iter_finite time_step hm l tr HI) as X; rewrite E in X;
+                              exact (conj (proj1 (iter_never_running time_step hm l st t sts s0 ev E)) X))));
+      specialize (LI (fun l tr HI => ltac:(split; [discriminate | intros C; discriminate C])));
+      specialize (LI fuel l0 [] (Forall_nil _))
+    end.
+    cbv zeta in LI. destruct LI as [NR HC].
+    match goal with |- context [r_state ?r] => destruct (r_state r) eqn:Est end;
+      intros C; try discriminate; try (apply HC; reflexivity). contradiction.
+  Qed.
 End RosInvariants.
 
 (* ====================================================================================== *)
@@ -556,4 +640,75 @@ Section BEInvariants.
     end.
     unfold be_ok, bcnt; cbn. repeat split; auto.
   Qed.
+
+  (* ---------------- C11: the scratch members of the State do not influence backward Euler ---------------- *)
+  Section Scratch.
+    Hypothesis Hvz : forall v v', vzero v = vzero v'.                      (* Fill(0) forgets *)
+    Hypothesis Hmz : forall m m', mzero m = mzero m'.
+    Hypothesis Hfs : forall m lu lu', factor_sep m lu = factor_sep m lu'.   (* Factor overwrites L and U (C03) *)
+
+    (* two States that agree on the concentrations (and, mid-run, on the saved copy Yn) *)
+    Definition bsim (s s' : bstate) : Prop := bYn1 s = bYn1 s' /\ bYn s = bYn s'.
+    Definition lsim (l l' : be_loop_state) : Prop :=
+      bsim (b_s l) (b_s l') /\ b_t l = b_t l' /\ b_H l = b_H l' /\ b_stats l = b_stats l' /\ b_state l = b_state l' /\
+      b_nsucc l = b_nsucc l' /\ b_nfail l = b_nfail l' /\ b_fresh l = b_fresh l' /\ b_iter l = b_iter l'.
+
+    Definition out_sim (a b : (solver_state * T * stats * bstate * list be_event) + (be_loop_state * list be_event)) : Prop :=
+      match a, b with
+      | inl (st, t, sts, s, ev), inl (st', t', sts', s', ev') =>
+        st = st' /\ t = t' /\ sts = sts' /\ bsim s s' /\ ev = ev'
+      | inr (l, ev), inr (l', ev') => lsim l l' /\ ev = ev'
+      | _, _ => False
+      end.
+
+    Lemma be_iter_sim time_step l l' : lsim l l' -> out_sim (iter time_step l) (iter time_step l').
+    Proof.
+      destruct l as [s t H sts st ns nf fr it], l' as [s' t' H' sts' st' ns' nf' fr' it'].
+      unfold lsim, bsim. cbn [b_s b_t b_H b_stats b_state b_nsucc b_nfail b_fresh b_iter].
+      intros [[E1 E2] [-> [-> [-> [-> [-> [-> [-> ->]]]]]]]].
+      unfold be_iter. cbn [b_s b_t b_H b_stats b_state b_nsucc b_nfail b_fresh b_iter].
+      rewrite <- E1, <- E2. rewrite (Hvz (bForcing s') (bForcing s)), (Hmz (bJac s') (bJac s)).
+      set (f := forcing (bYn1 s) (vzero (bForcing s))).
+      set (j := add_diag (ndiv N (n1 N) H') (negjac (bYn1 s) (mzero (bJac s)))).
+      assert (Ed : (if in_place then solve_ip (if in_place then factor_ip j else j) (vresid H' f (bYn1 s) (bYn s))
+                    else solve_sep (if in_place then bLU s else factor_sep j (bLU s)) (vresid H' f (bYn1 s) (bYn s))) =
+                   (if in_place then solve_ip (if in_place then factor_ip j else j) (vresid H' f (bYn1 s) (bYn s))
+                    else solve_sep (if in_place then bLU s' else factor_sep j (bLU s')) (vresid H' f (bYn1 s) (bYn s)))).
+      { destruct in_place; [reflexivity|]. rewrite (Hfs j (bLU s) (bLU s')). reflexivity. }
+      rewrite <- Ed. clear Ed.
+      repeat match goal with |- context [if ?b then _ else _] =>
+               match b with in_place => fail 1 | _ => destruct b end end;
+        cbn [out_sim lsim bsim b_s b_t b_H b_stats b_state b_nsucc b_nfail b_fresh b_iter bYn1 bYn];
+        repeat split; try reflexivity; try assumption; congruence.
+    Qed.
+
+    Lemma be_loop_sim fuel time_step l l' tr :
+      lsim l l' ->
+      let r := loop fuel time_step l tr in
+      let r' := loop fuel time_step l' tr in
+      br_state r = br_state r' /\ br_final_time r = br_final_time r' /\ br_stats r = br_stats r' /\
+      br_trace r = br_trace r' /\ bYn1 (br_s r) = bYn1 (br_s r').
+    Proof.
+      revert l l' tr; induction fuel as [|fuel IH]; intros l l' tr HR; cbn [be_loop].
+      - destruct HR as [[E1 _] [Et [_ [Es _]]]]. cbn. repeat split; auto.
+      - pose proof (be_iter_sim time_step l l' HR) as Hs.
+        destruct (iter time_step l) as [[[[[st t] sts] s] ev]|[l1 ev]],
+                 (iter time_step l') as [[[[[st' t'] sts'] s'] ev']|[l1' ev']]; cbn [out_sim] in Hs; try contradiction.
+        + destruct Hs as [-> [-> [-> [[E1 _] ->]]]]. cbn. repeat split; auto.
+        + destruct Hs as [HR' ->]. apply IH. exact HR'.
+    Qed.
+
+    (* the outcome of Solve is a function of the concentrations only: whatever the Jacobian, the
+       L/U factors, Yn and the forcing scratch held before *)
+    Theorem be_scratch_irrelevant fuel time_step (s s' : bstate) :
+      bYn1 s = bYn1 s' ->
+      let r := solve fuel time_step s in
+      let r' := solve fuel time_step s' in
+      br_state r = br_state r' /\ br_final_time r = br_final_time r' /\ br_stats r = br_stats r' /\
+      br_trace r = br_trace r' /\ bYn1 (br_s r) = bYn1 (br_s r').
+    Proof.
+      intros E. unfold be_solve. apply be_loop_sim.
+      unfold lsim, bsim. cbn. rewrite E. repeat split; reflexivity.
+    Qed.
+  End Scratch.
 End BEInvariants.
